@@ -275,6 +275,26 @@ CLAIMS["C05"] = dict(
               "kernels",
     ref="3/C05")
 
+CLAIMS["C01"] = dict(
+    text="The real RTDCWriter (store_feature, write_ndarray, write_ragged, "
+         "write_text, write_image_grayscale, store_log, rectify_metadata, "
+         "get_best_nd_chunks) writes provenance tokens into the in-memory "
+         "h5py stand-in and the real readers (H5Events, H5ContourEvent, "
+         "H5MaskEvent) read them back: one append step onto a pre-existing "
+         "dataset whose HDF5 chunk size is symbolic, call histories whose "
+         "split points are symbolic (items sized so that the writer's own "
+         "chunk size is 10), masks with symbolic pixels, contours with and "
+         "without a re-opened writer, log lines with symbolic byte lengths "
+         "appended to a log of symbolic width. z3 proves: stored sequence == "
+         "previous ++ written, index 1..N as uint32, event count, mask "
+         "255/0 round trip, contiguous contour keys, no truncated line.",
+    note="Trusted: z3, symx, the h5py stand-in (validated each run against "
+         "real h5py for the append loop). libhdf5 itself, value dtype "
+         "casting, compound tables and unicode normalisation are outside.",
+    technique="symbolic execution of the real Python code objects over an "
+              "in-memory HDF5 model + z3 (LIA), provenance tokens",
+    ref="3/C01")
+
 NOT_APPLICABLE = {
 }
 
